@@ -5,4 +5,4 @@ src=/tmp/seedwork6/$id/out; dst=/verif/seeded/$id-r6
 [ -f $src/patch.diff ] || { echo "$id: no patch.diff"; exit 1; }
 mkdir -p $dst && cp -r $src/. $dst/
 SEEDBASE=HEAD /verif/tools/seedverify.sh $id-r6
-SEEDALT_SHOW=1 /verif/tools/seedalt.sh $dst/patch.diff HEAD $id "$@"
+SEEDALT_SHOW=1 SEEDALT_SRC=${SEEDALT_SRC:-/verif} /verif/tools/seedalt.sh $dst/patch.diff HEAD $id "$@"
